@@ -81,9 +81,13 @@ def main(tier, seed, replay=None):
             fam.setdefault(n.split("_")[0].rstrip("0123456789."), []).append(n)
         pick = set()
         for f, lst in fam.items():
-            pick.update(rng.sample(lst, min(len(lst), 3)))
+            pick.update(rng.sample(lst, min(len(lst), 2)))
+        # near-miss pairs are always in: they differ in exactly one respect (hole vs {}, key vs value order, offset only, ...)
+        pick.update(n for n in ("ar_hole", "ar_empty_mid", "ar_empty_mid2", "ar_hole2", "ar_123", "te_19", "te_23", "te_13", "ti_19", "ti_23",
+                                "tc_1", "tc_2", "tb_1", "tb_2", "d19_23", "d12", "rj_ba", "r_ab", "str_off", "str_a", "by_off", "by_12",
+                                "empty", "true", "t0", "neg_set", "neg_tup") if n in P)
         rest = [n for n in names if n not in pick]
-        pick.update(rng.sample(rest, min(len(rest), 12)))
+        pick.update(rng.sample(rest, min(len(rest), 6)))
         names = sorted(pick)
     reqs, idx = [], {}
     for a in names:
@@ -126,7 +130,9 @@ def main(tier, seed, replay=None):
     nsort, sreqs, smeta = 0, [], []
     for _ in range(25 if tier == "quick" else 150):
         k = rng.randrange(3, 7)
-        elems = rng.sample(names, min(k, len(names)))
+        # several sugar tuples of one kind at one index in one set are the collision finding (C01): keep them apart
+        sortable = [n for n in names if not n.startswith(("ti_", "tc_", "tb_"))]
+        elems = rng.sample(sortable, min(k, len(sortable)))
         perm = elems[:]
         rng.shuffle(perm)
         for variant in (elems, perm):
